@@ -42,6 +42,19 @@ inductive TRef
   | aggr (k : AggKind) (bounds : Option (Int × Upper)) (uniq opt : Bool) (elem : TRef)
   deriving DecidableEq, Repr, Inhabited
 
+/-- a domain rule `label : expr ;` of a TYPE or an ENTITY; `expr` is the expression as `EXPRto_string` prints it, layout
+    (white space, line breaks) aside — the expression printer itself is C07's subject -/
+structure WhereRule where
+  label : Option String := none
+  expr : String
+  deriving DecidableEq, Repr, Inhabited
+
+/-- `label : a, SELF\sup.b ;` in a UNIQUE clause; every attribute reference as written -/
+structure UniqueRule where
+  label : Option String := none
+  attrs : List String
+  deriving DecidableEq, Repr, Inhabited
+
 inductive TypeBody
   | alias (t : TRef)               -- `TYPE t = REAL`, `TYPE t = u`, `TYPE t = LIST [..] OF ..`
   | enum (items : List String)
@@ -51,6 +64,7 @@ inductive TypeBody
 structure TypeDecl where
   name : String
   body : TypeBody
+  wheres : List WhereRule := []
   deriving DecidableEq, Repr, Inhabited
 
 inductive AKind | explicit | derived | inverse
@@ -65,6 +79,8 @@ structure Attr where
   type : TRef
   /-- INVERSE … FOR invAttr -/
   invAttr : String := ""
+  /-- DERIVE … := init : the initializer as `EXPRto_string` prints it, layout aside -/
+  init : String := ""
   deriving DecidableEq, Repr, Inhabited
 
 structure Entity where
@@ -72,6 +88,8 @@ structure Entity where
   abstract : Bool := false
   supers : List String := []
   attrs : List Attr := []
+  uniques : List UniqueRule := []
+  wheres : List WhereRule := []
   deriving DecidableEq, Repr, Inhabited
 
 structure Schema where
